@@ -46,6 +46,7 @@ func main() {
 		toProto    string
 		fromProto  string
 		fromProto2 string
+		customKID  string
 		tables     []string
 	}
 	var pkgs []pkgrec
@@ -90,6 +91,9 @@ func main() {
 		if tp != nil {
 			sc := tp.Scope()
 			for _, n := range sc.Names() {
+				if c, ok := sc.Lookup(n).(*types.Const); ok && n == "CustomKID" && c.Val().Kind() == constant.Int {
+					rec.customKID = c.Val().ExactString()
+				}
 				if c, ok := sc.Lookup(n).(*types.Const); ok && c.Val().Kind() == constant.String {
 					s := constant.StringVal(c.Val())
 					if strings.HasPrefix(s, "type.googleapis.com/") {
@@ -278,22 +282,25 @@ func main() {
 		}
 	}
 	out.WriteString("Definition unpaired_tables : list (list (N * N)) := [\n  " + strings.Join(unp, ";\n  ") + "].\n\n")
-	out.WriteString("(* ---- per key type URL: (url as bytes, (kind, (variant -> prefix map, prefix -> variant map))).\n   kind 0: the maps are used.  Types without variants compare the prefix with RAW (3)\n   directly (PRFs: raw_only maps) or copy it from the derived key template (key\n   derivation: identity maps).  kind 1: the key parser never looks at the prefix\n   and the serializer always emits RAW with id 0 (streaming AEADs). ---- *)\n")
+	out.WriteString("(* ---- per key type URL: (url as bytes, (kind, (custom, (variant -> prefix map, (prefix -> variant map, prefix -> variant map when a custom kid is present))))).\n   kind 0: the maps are used.  Types without variants compare the prefix with RAW (3)\n   directly (PRFs: raw_only maps) or copy it from the derived key template (key\n   derivation: identity maps).  kind 1: the key parser never looks at the prefix\n   and the serializer always emits RAW with id 0 (streaming AEADs).  kind 2: JWT\n   types, whose KID strategy also depends on the presence of a custom kid;\n   custom = the constant CustomKID of the package. ---- *)\n")
 	out.WriteString("Definition raw_only_to : list (N * N) := [(0, 3)].\nDefinition raw_only_from : list (N * N) := [(3, 0)].\n")
 	out.WriteString("Definition prefix_identity : list (N * N) := [(1, 1); (2, 2); (3, 3); (4, 4)].\n\n")
-	out.WriteString("Definition prefix_maps : list (list N * (N * (list (N * N) * list (N * N)))) := [\n")
+	out.WriteString("Definition prefix_maps : list (list N * (N * (N * (list (N * N) * (list (N * N) * list (N * N)))))) := [\n")
 	first := true
 	for _, p := range pkgs {
-		to, from, kind := p.toProto, p.fromProto, "0"
+		to, from, from2, kind, custom := p.toProto, p.fromProto, p.fromProto, "0", "0"
+		if p.fromProto2 != "" {
+			from2, kind, custom = p.fromProto2, "2", p.customKID
+		}
 		if to == "" || from == "" {
 			src, _ := os.ReadFile(filepath.Join(*repo, strings.Replace(p.name, "_", "/", 1), "protoserialization.go"))
 			switch {
 			case strings.Contains(string(src), "keySerialization.OutputPrefixType() != tinkpb.OutputPrefixType_RAW"):
-				to, from = "raw_only_to", "raw_only_from"
+				to, from, from2 = "raw_only_to", "raw_only_from", "raw_only_from"
 			case strings.Contains(string(src), "derivedKeyTemplate.GetOutputPrefixType()"):
-				to, from = "prefix_identity", "prefix_identity"
+				to, from, from2 = "prefix_identity", "prefix_identity", "prefix_identity"
 			default:
-				to, from, kind = "raw_only_to", "raw_only_from", "1"
+				to, from, from2, kind = "raw_only_to", "raw_only_from", "raw_only_from", "1"
 			}
 		}
 		for i, u := range p.urls {
@@ -305,12 +312,12 @@ func main() {
 			for _, ch := range []byte(u) {
 				bs = append(bs, fmt.Sprint(ch))
 			}
-			fmt.Fprintf(&out, "  (* %s %s = %q *)\n  ([%s], (%s, (%s, %s)))", p.name, p.urlNames[i], u, strings.Join(bs, ";"), kind, to, from)
+			fmt.Fprintf(&out, "  (* %s %s = %q *)\n  ([%s], (%s, (%s, (%s, (%s, %s)))))", p.name, p.urlNames[i], u, strings.Join(bs, ";"), kind, custom, to, from, from2)
 		}
 	}
 	out.WriteString("].\n\n")
-	out.WriteString("(* JWT: the prefix -> KID strategy map also depends on whether a custom kid is present *)\n")
-	out.WriteString("Definition jwt_custom_kid_maps : list (list (N * N) * list (N * N) * list (N * N)) := [")
+	out.WriteString("(* JWT: (CustomKID constant, KID strategy -> prefix, prefix -> strategy without / with a custom kid) *)\n")
+	out.WriteString("Definition jwt_custom_kid_maps : list (N * list (N * N) * list (N * N) * list (N * N)) := [")
 	first = true
 	for _, p := range pkgs {
 		if p.fromProto2 != "" {
@@ -318,7 +325,7 @@ func main() {
 				out.WriteString("; ")
 			}
 			first = false
-			fmt.Fprintf(&out, "\n  (%s, %s, %s)", p.toProto, p.fromProto, p.fromProto2)
+			fmt.Fprintf(&out, "\n  (%s, %s, %s, %s)", p.customKID, p.toProto, p.fromProto, p.fromProto2)
 		}
 	}
 	out.WriteString("].\n\n")
